@@ -120,9 +120,7 @@ def summaries(prog, max_reads):
 
     @reg(r'^(std::io::)?(error::)?Error::kind$')
     def err_kind(ex, st, fn, argv):
-        e = deref(ex, st, argv[0])
-        idx = wb_index(prog)
-        return [(st, Enum(idx if lit_text(e.fields[0].s) == '"WouldBlock"' else idx + 1, {}, 'ErrorKind'))]
+        return io_error_kind_stub(prog)(ex, st, fn, argv)
 
     @reg(r'^parse_long_uint$|^amq_protocol::types::parsing::parse_long_uint$')
     def long_uint(ex, st, fn, argv):
@@ -217,12 +215,18 @@ def body(ctx):
                    inject_into='src/frame_buffer.rs', profiles=('dev',), hang_is_violation=True, panic_is_violation=True)
 
 
-def find_read_loop_head(f):
-    """the loop body starts with `let bytes = self.buf.chunk()`"""
-    heads = [bid for bid, bb in f.blocks.items() if bb.term.kind == 'call' and re.search(r'Buf>::chunk$', bb.term.data['fn'])]
-    if len(heads) != 1:
-        raise Unsupported(f"cannot locate the head of the read loop in {f.name} ({heads})")
-    return heads[0]
+def find_read_loop(f):
+    """head of the read loop and the local counting the bytes read so far, found by control-flow / liveness analysis of the MIR
+    (no reliance on variable names): the loop with the largest body; its only loop-carried local must be an integer"""
+    from mirsym.liveness import loop_heads, loop_carried
+    from mirsym.engine import INT_TYPES
+    heads = loop_heads(f)
+    if not heads:
+        raise Unsupported(f"no loop found in {f.name}")
+    carried = loop_carried(f, heads[0])
+    if len(carried) != 1 or f.locals[carried[0]] not in INT_TYPES:
+        raise Unsupported(f"read loop: expected one integer counter carried across iterations, found {[(l, f.locals[l]) for l in carried]}")
+    return heads[0], carried[0]
 
 
 def iterations(ctx, prog, k, viol, from_head=False):
@@ -239,12 +243,25 @@ def iterations(ctx, prog, k, viol, from_head=False):
     inner = Agg({names.index('buf'): InBuf(c0, avail0), names.index('phantom'): Unit()}, 'frame_buffer::Inner', 'fbinner')
     st.roots['fb'] = Cell(inner, 'fb')
     br0 = b64(0)
-    kw = {}
+    head, counter = find_read_loop(f)
+    args = [Ref(st.roots['fb']), Ref(Cell(Unit(), 'stream')), FnItem('verif_handler')]
+    bind = {'Kind': 'AmqpFrameKind', 'S': 'VerifStream', 'F': 'VerifHandler'}
     if from_head:
+        # stop at the first arrival at the loop head, replace the counter by an arbitrary value, continue
         br0 = z3.BitVec('bytes_read.before', 64)
-        st.pc.append(z3.ULE(br0, 1 << 40))
-        kw = dict(start_bb=find_read_loop_head(f), locals_by_name={'bytes_read': Int(br0, 64, False)})
-    res = ex.run(st, f, [Ref(st.roots['fb']), Ref(Cell(Unit(), 'stream')), FnItem('verif_handler')], bind={'Kind': 'AmqpFrameKind', 'S': 'VerifStream', 'F': 'VerifHandler'}, **kw)
+        ex.cut_revisit = None
+        ex.cut_block = (re.escape(f.name) + '$', head, 1)
+        starts = [s for (s, rv) in ex.run(st, f, args, bind=bind) if isinstance(rv, Panic) and rv.kind == 'cut']
+        ex.cut_block = None
+        ex.cut_revisit = (re.escape(f.name) + '$', k)
+        res = []
+        for s0 in starts:
+            s0.cut_frames[0].locals[counter].value = Int(br0, 64, False)
+            s0.pc.append(z3.ULE(br0, 1 << 40))
+            s0.trace = []
+            res += ex.resume(s0)
+    else:
+        res = ex.run(st, f, args, bind=bind)
     tagk = f"h{k}" if from_head else f"k{k}"
     n = 0
     for (s, rv) in res:
@@ -274,7 +291,7 @@ def iterations(ctx, prog, k, viol, from_head=False):
         if isinstance(rv, Panic) and rv.kind == 'cut':
             # loop continues: buffer state and byte counter are consistent with the events so far
             fr = s.cut_frames[0]
-            br = fr.locals[fr.func.debug['bytes_read']].value
+            br = fr.locals[counter].value
             conds += [buf.c == pos, buf.avail == avail, br.bv == nread, z3.BoolVal(last in ('frame', 'read'))]
             label = 'continue'
         elif isinstance(rv, Panic):
